@@ -38,7 +38,14 @@ type c04Cfg struct {
 	// DATA was accepted (unusable signing key), 4 = its body writer fails after some output; 1 = no recipients,
 	// 2 = no sender. Nothing of it may reach the wire in a way that disturbs the messages that follow.
 	BadMsg int `json:"badmsg,omitempty"`
+	// Codes: which concrete reply codes stand for the 4yz / 5yz alternatives of the alphabet at MAIL, RCPT, DATA and
+	// end-of-data: 0 = 451 / 550 (554 at DATA), 1 = 452 / 552 (the "insufficient storage / too many recipients" pair of
+	// RFC 5321 4.5.3.1.10), 2 = 450 / 553, 3 = 455 / 555 (the parameter pair of RFC 5321 4.1.1.11), 4 = 421 without a
+	// disconnect / 521
+	Codes int `json:"codes,omitempty"`
 }
+
+var c04CodeSets = [][2]int{{451, 550}, {452, 552}, {450, 553}, {455, 555}, {421, 521}}
 
 type c04Case struct {
 	Cfg    c04Cfg `json:"cfg"`
@@ -244,6 +251,21 @@ func c04Exec(r *vf.Run, cfg c04Cfg, c *vf.Chooser) (keys []string, whats []strin
 	// after STARTTLS a *different* capability set is advertised: the three MAIL-parameter extensions are inverted
 	sess.CapsTLS = append([]string{}, capsFromMask((cfg.Caps^0b000111)&^(1<<4))...) // non-nil: an EMPTY set after STARTTLS is a single-line 250
 	sess.Script = stdScriptL(c)
+	if cfg.Codes != 0 {
+		inner := sess.Script
+		sess.Script = func(s *refsmtp.Session, ev *refsmtp.Event, def refsmtp.Action) refsmtp.Action {
+			a := inner(s, ev, def)
+			if a.Kind == refsmtp.ActReply && (ev.Verb == "MAIL" || ev.Verb == "RCPT" || ev.Verb == "DATA" || ev.Verb == "EOD") {
+				switch a.Code {
+				case 451:
+					a.Code = c04CodeSets[cfg.Codes][0]
+				case 550, 554:
+					a.Code = c04CodeSets[cfg.Codes][1]
+				}
+			}
+			return a
+		}
+	}
 	sess.NewAuth = func(s *refsmtp.Session, mech string) refsmtp.AuthExchange {
 		if mech == "PLAIN" {
 			return plainAuthSrv{"user", "secret-pass"}
@@ -631,6 +653,17 @@ func init() {
 					for enc := 0; enc < 2; enc++ {
 						jobs = append(jobs, job{c04Cfg{TLS: tls, DSN: 1, Enc8: enc == 1, Caps: caps, M: 1, R: 2, Redial: true}, 1})
 					}
+				}
+			}
+			// other concrete reply codes of the 4yz / 5yz classes
+			for codes := 1; codes < len(c04CodeSets); codes++ {
+				for _, caps := range []int{0b001111, 0b000000, 0b010111} {
+					b := 1
+					if r.Thorough {
+						b = 2
+					}
+					jobs = append(jobs, job{c04Cfg{TLS: 0, DSN: 1, Caps: caps, M: 2, R: 2, Codes: codes}, b}, job{c04Cfg{TLS: 0, DSN: 0, Enc8: true, Caps: caps, M: 1, R: 3, Calls: 2, Codes: codes}, b},
+						job{c04Cfg{TLS: 1, DSN: 3, Caps: caps, M: 2, R: 1, NoNoop: true, Codes: codes}, 1})
 				}
 			}
 			// deeper bound on a few representative configurations with the full 3×3 batch
